@@ -93,11 +93,8 @@ Definition normalizeCompressLevel (l : Z) : Z :=
   ((if (l <? -2) || (l >? 9) then CompressDefaultCompression else l) + 2)%Z.
 Definition normalizeBrotliCompressLevel (l : Z) : Z :=
   (if (l <? 0) || (l >? 11) then CompressBrotliDefaultCompression else l)%Z.
-(* zstd.go: the Compress* constants are an iota block, which the translator does not evaluate; the harness compares
-   these three values with the exported Go constants on every run (CConst cases) *)
-Definition CompressZstdSpeedNotSet : Z := 0.
-Definition CompressZstdDefault : Z := 2.
-Definition CompressZstdBestCompression : Z := 4.
+(* zstd.go: CompressZstdSpeedNotSet / CompressZstdDefault / CompressZstdBestCompression come from Gen/GenC22.v (the
+   translator evaluates the iota block); the harness also compares them with the exported Go constants (CConst case) *)
 Definition normalizeZstdCompressLevel (l : Z) : Z :=
   (if (l <=? CompressZstdSpeedNotSet) || (l >? CompressZstdBestCompression) then CompressZstdDefault else l)%Z.
 Definition pool_index (k : coding) (l : Z) : Z :=
